@@ -501,11 +501,13 @@ impl<C: Autocomplete + Help> SessModel<C> {
                         stats.hit(if up { "history_up" } else { "history_down" });
                         let mut ok = false;
                         for (pos, line) in &adm {
-                            let (wl, wc) = match line {
-                                Some(l) => (l.clone().into_bytes(), l.chars().count()),
-                                None => (before.text.clone(), before.cursor),
+                            // where the cursor stands in a recalled line is not part of the statement (C06 ties
+                            // the terminal to it); an untouched line keeps its cursor
+                            let (wl, cursor_ok) = match line {
+                                Some(l) => (l.clone().into_bytes(), after.cursor <= l.chars().count()),
+                                None => (before.text.clone(), after.cursor == before.cursor),
                             };
-                            if *pos == pa && after.text == wl && after.cursor == wc {
+                            if *pos == pa && after.text == wl && cursor_ok {
                                 ok = true;
                                 if let Some(l) = line {
                                     if !l.is_empty() {
